@@ -37,6 +37,8 @@ package dns
 // success means a TSIG record was found among the additional records (a message without one is ErrNoSig), and the
 // walk over the additional section consumes input at every step, whatever ARCOUNT claims
 //@   ensures found: ret2 == nil ==> ret1.Hdr.Rrtype == 250 [C11]
+// RFC 8945 5.2: the TSIG record is the last thing in the message - whatever follows it would lie outside the MAC
+//@   exit last: ret2 == nil ==> off == len(msg) [C11]
 //@   loop 2 decreases len(msg) - off [C02 C11]
 //@   ensures pre: ret2 == nil ==> ref(ret0) == ref(msg) && sliceoff(ret0) == sliceoff(msg)
 //@   ensures len: ret2 == nil ==> 12 <= len(ret0) && len(ret0) <= len(msg)
